@@ -6,7 +6,7 @@ from hypothesis import strategies as st
 
 from vf import gen, ref, popgen, llbuild, hbuild, stats
 from vf.analytic_model import ref_outputs
-from vf.core import ClauseFail
+from vf.core import ClauseFail, spec_key
 
 ID = 'C16'
 BUDGET = {'quick': 400, 'thorough': 15000}
@@ -236,9 +236,13 @@ def _spec(draw):
     while sc in (sa, sb):
         sc += 1
     seeds = dict(A=sa, B=sb, C=sc)
-    return dict(entry=entry, target=target, prog=prog, seeds=seeds,
-                gen=dict(k=draw(SEEDS), a0=draw(st.integers(0, 2 ** 32 - 1)), a1=draw(st.integers(0, 2 ** 32 - 1))),
-                indep=gen.chance(draw, 0.15 if entry in ('hlp', 'flp', 'poppred') else 0.4), stat_seed=draw(SEEDS))
+    d = dict(entry=entry, target=target, prog=prog, seeds=seeds,
+             gen=dict(k=draw(SEEDS), a0=draw(st.integers(0, 2 ** 32 - 1)), a1=draw(st.integers(0, 2 ** 32 - 1))),
+             indep=gen.chance(draw, 0.15 if entry in ('hlp', 'flp', 'poppred') else 0.4))
+    # Hypothesis repeats small integers (0 in ~13% of the draws): the seed of the statistical clause is mixed with the
+    # rest of the spec so that different cases see different noise streams (the spec records the seed actually used)
+    d['stat_seed'] = stats.derive_seed(draw(SEEDS), spec_key(d))
+    return d
 
 
 def strategy(tier):
